@@ -8,6 +8,7 @@ import GqlProofs.ExecRoot
 import GqlProofs.ExecLog
 import GqlProofs.ExecState
 import GqlProofs.ExecWorlds
+import GqlProofs.ExecPair
 /-! # C04 — Responses are well-formed for schema and query whatever resolvers return
 
 Property theorems only. The theorems are about `GqlModel.Exec.execute` (the execution algorithm as this library
@@ -268,14 +269,12 @@ theorem sibling_unaffected_by_failures (c : Ctx) (fuel : Nat) (dfr : Bool) (rt :
 
 /-! ### two worlds
 
-Full statement wanted (C04, "no failure in one field alters the value of a sibling outside the nulled subtree", two-world
-form): for worlds `w₁ w₂` with `AgreeExcept w₁ w₂ id₀ f₀` whose resolver `(id₀, f₀)` is invoked (in `w₁`) only at response
-position `p`, the two responses agree at every position that is neither a prefix nor an extension of the nearest
-nullable ancestor `a` of `p` (`∃ a <+: p, EqOutside a data₁ data₂ ∧ (a = p ∨ data₁ or data₂ holds null at a)`).
-Proved below: the transfer theorem (a call that never invokes the differing resolver is unchanged), the statement at
-ONE selection set (any depth), and its response-level instance for top-level keys. Missing for the full form: the paired
-induction that threads the statement along the path from the root to `p` (the group leading to `p` is the only one that
-may differ at each level; where it is nulled in one world, `a` is that level). -/
+C04, "no failure in one field alters the value of a sibling outside the nulled subtree", two-world form: worlds `w₁ w₂` with
+`AgreeExcept w₁ w₂ id₀ f₀` (same answers to every type question, same outcome of every resolver except `(id₀, f₀)`), the
+first execution invoking `(id₀, f₀)` only at response position `p`. Proved below: the transfer theorem (a call that never
+invokes the differing resolver is unchanged), the statement at ONE selection set (any depth), its response-level instance
+for top-level keys, and the FULL-DEPTH response-level theorem `sibling_unaffected_two_worlds` (data trees, error lists and
+invocation logs agree outside a position `q` on the way to `p` that is `p` or holds `null` in one response). -/
 
 /-- A call of any of the four functions that (in the first world) never invokes the differing resolver returns the same
 result and leaves the same state in the second world. -/
@@ -367,6 +366,58 @@ theorem sibling_unaffected_two_worlds_partial (s : Schema) (doc : Document) (opN
           have : k ∈ d2.map (·.1) := List.mem_map.mpr ⟨_, hv, rfl⟩
           rw [hkeys2] at this
           simpa [resolvable] using this
+    · cases hnone
+  · cases hnone
+
+/-- FULL DEPTH, response level. Two worlds that agree on everything except the outcome of ONE resolver
+`(object id₀, field f₀)`, which the first execution invokes only at response position `p`; both responses have data.
+Then there is a position `q` on the way to `p` (`q <+: p`) — `p` itself, or a position that holds `null` in one of the
+responses (the ancestor the null of a failure at/below `p` moved to) — such that
+
+* the two data trees hold the same value at EVERY response path that is neither an extension nor a prefix of `q`
+  (`getAt`, `none = none` where the path addresses nothing; prefixes of `q` are the enclosing containers of `q`, which
+  necessarily differ as whole values),
+* the error lists restricted to paths not at or below `q` coincide (same errors, same order),
+* the resolver invocation logs restricted to paths not at or below `q` coincide: outside `q` the two executions ran in
+  lockstep.
+
+Proof: `GqlProofs/ExecPair.lean` (`PairP`/`pairP`, paired induction over the four functions on canonical runs). -/
+theorem sibling_unaffected_two_worlds (s : Schema) (doc : Document) (opName : String) (inputs : Vars)
+    (w1 w2 : World) (id0 : Nat) (f0 : String) (ha : AgreeExcept w1 w2 id0 f0) (fuel : Nat)
+    (d1 d2 : List (String × JVal)) (e1 e2 : List (Path × Bool)) (log1 log2 : List LogEntry) (kf1 kf2 : List Path)
+    (h1 : execute s doc opName inputs w1 fuel = .result (some d1) e1 log1 kf1)
+    (h2 : execute s doc opName inputs w2 fuel = .result (some d2) e2 log2 kf2)
+    (p : Path) (hp : ∀ e, e ∈ log1 → Touches id0 f0 e → e.path = p) :
+    ∃ q, q <+: p ∧
+      (q = p ∨ (JVal.obj d1).getAt q = some .null ∨ (JVal.obj d2).getAt q = some .null) ∧
+      (∀ r, ¬ q <+: r → ¬ r <+: q → (JVal.obj d1).getAt r = (JVal.obj d2).getAt r) ∧
+      errsOutside q e1 = errsOutside q e2 ∧ logOutside q log1 = logOutside q log2 := by
+  obtain ⟨c, root, sel, r1, st1, hc1, hr1, herr1, hlog1, -, hd1⟩ := execute_result h1
+  obtain ⟨c2, root2, sel2, r2, st2, hc2, hr2, herr2, hlog2, -, hd2⟩ := execute_result h2
+  obtain ⟨hc2', hw⟩ := requestCtx_world hc1 w2
+  rw [hc2'] at hc2
+  simp only [Option.some.injEq, Prod.mk.injEq] at hc2
+  obtain ⟨rfl, rfl, rfl⟩ := hc2
+  subst hw
+  rw [rootGroups_world] at hr2
+  rcases hd1 with ⟨fs1, rfl, hfs1⟩ | ⟨-, hnone⟩
+  · rcases hd2 with ⟨fs2, rfl, hfs2⟩ | ⟨-, hnone⟩
+    · cases hfs1; cases hfs2
+      have hnd : (rootGroups c root sel).keys.Nodup := collect_keys_nodup c root sel ([], []) List.nodup_nil
+      have ht : TouchAt id0 f0 ([] ++ p) st1.log := by
+        intro e he h
+        exact hp e (by rw [hlog1, List.mem_reverse]; exact he) h
+      obtain ⟨q, hq, hval, hnull, herrs, hlogs⟩ :=
+        (pairP ha fuel).groups _ _ _ _ _ p _ _ _ _ hnd hr1 hr2 ht d1 d2 rfl rfl
+      refine ⟨q, hq, hnull, fun r h3 h4 => hval r (fun hc => hc.elim h3 h4), ?_, ?_⟩
+      · rw [herr1, herr2]
+        simp only [errsOutside, List.filter_reverse]
+        simp only [List.nil_append, errsOutside] at herrs
+        rw [herrs]
+      · rw [hlog1, hlog2]
+        simp only [logOutside, List.filter_reverse]
+        simp only [List.nil_append, logOutside] at hlogs
+        rw [hlogs]
     · cases hnone
   · cases hnone
 
